@@ -487,7 +487,13 @@ impl GRLParser {
         let grl_text = grl_text.as_str();
 
         for rule_match in rule_split_regex().find_iter(grl_text) {
-            let rule_text = rule_match.as_str();
+            // the regex engine can report a start offset inside a multi-byte char that directly
+            // precedes `rule` (e.g. "érule ..."): `as_str()` would panic on that slice
+            let rule_text = grl_text
+                .get(rule_match.start()..rule_match.end())
+                .ok_or_else(|| RuleEngineError::ParseError {
+                    message: "Invalid rule boundary (not on a character boundary)".to_string(),
+                })?;
             let rule = self.parse_single_rule(rule_text)?;
             rules.push(rule);
         }
